@@ -1122,6 +1122,9 @@ func genC18(c *corpus, seed uint64) *scn.Scenario {
 			}
 			pt.Pools = append(pt.Pools, sp)
 		}
+		if vlong && !huge {
+			maxTotal = 1400000 // (several million objects only of the cheaper kind)
+		}
 		nops := 2 + r.n(maxOps)
 		for o := 0; o < nops; o++ {
 			p := r.n(np)
